@@ -55,12 +55,36 @@ type faultState struct {
 	modeOn    bool
 	exported  bool
 	rule      func(op, path string) int // persistent fault of the next runPlan (nil: none)
+	curKind   string                    // kind of the case the next runPlan belongs to (for the watchdog)
 	asof      time.Time
 	head      []string // the case line's fields describing the initial state
 	nCaseDirs int
 }
 
+// openFDs: the number of file descriptors the process holds.
+func openFDs() int {
+	es, err := os.ReadDir("/proc/self/fd")
+	if err != nil {
+		return 0
+	}
+	return len(es)
+}
+
+// watchdog: a run that neither returns nor reaches a fault point (a loop without calls) would stop
+// the harness; after the deadline onExpire reports the case as a hang and the harness exits cleanly.
+const caseDeadline = 60 * time.Second
+
+func watchdog(onExpire func()) (stop func()) {
+	tm := time.AfterFunc(caseDeadline, func() {
+		onExpire()
+		out.Close()
+		os.Exit(0)
+	})
+	return func() { tm.Stop() }
+}
+
 type faultResult struct {
+	fdDelta   int         // file descriptors held after the run minus before
 	fired     map[int]int // index -> kind of the faults that fired (the index plan equivalent to plan + rule)
 	ncalls    int
 	log       []string
@@ -91,6 +115,11 @@ func (fs *faultState) runPlan(plan map[int]int) (string, faultResult) {
 	vos.Reset(plan, callBudget)
 	vos.Rule = fs.rule
 	vos.ResetTemp()
+	fd0 := openFDs()
+	stop := watchdog(func() {
+		vos.Off()
+		fs.emit(fs.curKind, plan, caseDir, faultResult{hang: true, ncalls: vos.Calls, log: append([]string(nil), vos.Log...), fired: vos.FiredKinds})
+	})
 	var buf bytes.Buffer
 	log.SetOutput(&buf)
 	func() {
@@ -110,7 +139,9 @@ func (fs *faultState) runPlan(plan map[int]int) (string, faultResult) {
 			u.RunAndClose()
 		}
 	}()
+	stop()
 	log.SetOutput(io.Discard)
+	res.fdDelta = openFDs() - fd0
 	res.ncalls = vos.Calls
 	res.fired = vos.FiredKinds
 	res.log = append([]string(nil), vos.Log...)
@@ -206,6 +237,7 @@ func (fs *faultState) emit(kind string, plan map[int]int, caseDir string, res fa
 	for _, c := range res.log {
 		fields = append(fields, HS(strings.ReplaceAll(c, caseDir+string(filepath.Separator), "")))
 	}
+	fields = append(fields, I(int64(res.fdDelta)))
 	out.Case(true, fields...)
 	casesDone++
 	os.RemoveAll(caseDir)
@@ -219,8 +251,10 @@ func faultCases(n int, w *world, dir string, cfg *telemetry.UploadConfig, start 
 	// mode local: the exported Run (no config download in that mode); mode on: the inner uploader
 	fs.exported = !modeOn && stateIdx%4 != 0
 	thorough := os.Getenv("VERIF_TIER") == "thorough"
+	fs.curKind = "nofault"
 	caseDir, base := fs.runPlan(nil)
 	fs.emit("nofault", nil, caseDir, base)
+	fs.curKind = "single"
 	out.Note(fmt.Sprintf("state-calls-%02d", (base.ncalls/10)*10))
 	if fs.exported {
 		out.Note("run-exported")
@@ -296,6 +330,7 @@ func faultCases(n int, w *world, dir string, cfg *telemetry.UploadConfig, start 
 			break
 		}
 		fs.rule = rl.f
+		fs.curKind = "rule"
 		cd, r := fs.runPlan(nil)
 		fs.rule = nil
 		if len(r.fired) == 0 && !r.hang {
@@ -315,6 +350,7 @@ func faultCases(n int, w *world, dir string, cfg *telemetry.UploadConfig, start 
 				for _, k1 := range []int{vos.KEIO, vos.KShort} {
 					for _, k2 := range []int{vos.KENOSPC, vos.KShort} {
 						plan := map[int]int{i: k1, j: k2}
+						fs.curKind = "pair"
 						cd, r := fs.runPlan(plan)
 						fs.emit("pair", plan, cd, r)
 					}
@@ -329,6 +365,7 @@ func faultCases(n int, w *world, dir string, cfg *telemetry.UploadConfig, start 
 			for m := 0; m < 2+rnd.Intn(2); m++ {
 				plan[rnd.Intn(base.ncalls+1)] = 1 + rnd.Intn(int(vos.NKinds)-1)
 			}
+			fs.curKind = "multi"
 			cd, r := fs.runPlan(plan)
 			fs.emit("multi", plan, cd, r)
 		}
